@@ -593,8 +593,12 @@ mod ir_builder {
                     (ty, ret)
                 }
 
+            // The printer puts every ASM op on a line of its own and an op without metadata has
+            // no other terminator, so the op name and its register operands must not be looked
+            // for beyond the end of the line (`aloc r1` followed by `mcp hp r2 r3` on the next
+            // line are two ops, not one `aloc` with five operands).
             rule asm_op() -> IrAstAsmOp
-                = name:id_id() args:asm_op_arg()* imm:asm_op_arg_imm()? meta_idx:comma_metadata_idx()? {
+                = name:asm_op_id() args:asm_op_arg()* imm:asm_op_arg_imm()? meta_idx:comma_metadata_idx()? _ {
                     IrAstAsmOp {
                         name,
                         args,
@@ -603,8 +607,13 @@ mod ir_builder {
                     }
                 }
 
+            rule asm_op_id() -> Ident
+                = !(ast_ty() (" " "\n")) id:$(id_char0() id_char()*) space()* {
+                    Ident::new(Span::new(id.into(), 0, id.len(), None).unwrap())
+                }
+
             rule asm_op_arg() -> Ident
-                = !asm_op_arg_imm() arg:id_id() {
+                = !asm_op_arg_imm() arg:asm_op_id() {
                     arg
                 }
 
